@@ -9,9 +9,14 @@ Local Open Scope string_scope.
 
 Definition nat_str (n : nat) : string := NilEmpty.string_of_uint (Nat.to_uint n).
 
+Definition lock_name (l : lockid) : string :=
+  match l with
+  | 0 => "mu" | 1 => "promise" | 2 => "promise2" | 3 => "client" | 4 => "hook"
+  | 5 => "server" | 6 => "aq" | 7 => "sr" | 8 => "re" | 9 => "embargo" | _ => "lock" ++ nat_str l
+  end.
+
 Definition locks_str (h : list lockid) (s : bool) : string :=
-  "{" ++ (if mem 0 h then "mu" else "") ++ (if mem 0 h && s then "," else "") ++
-  (if s then "sender" else "") ++ "}".
+  "{" ++ String.concat "," (map lock_name h ++ (if s then ["sender"] else [])) ++ "}".
 
 Definition state_str (σ : state) : string :=
   locks_str (held σ) (sender σ) ++ " tasks=" ++ nat_str (tasks σ).
@@ -26,11 +31,12 @@ Definition viol_str (v : violation) : string :=
   match v with
   | VUnlockNotHeld _ => "Unlock of a mutex that is not held"
   | VDoubleLock _ => "Lock of a mutex the thread already holds (self-deadlock)"
-  | VBlockingUnderMutex a => act_str a ++ " while c.mu is held"
+  | VBlockingUnderMutex a => act_str a ++ " while a mutex is held"
   | VSenderNotHeld => "sender lock released but not held"
   | VSenderDouble => "sender lock taken twice"
   | VSenderNoMutex => "sender lock state changed without c.mu"
   | VTransportNoSender => "outbound transport operation without the sender lock"
+  | VRebindHeld _ => "variable that names a held mutex is re-assigned"
   | VTasksUnderflow => "tasks.Done / hand-over of a task obligation the function does not own"
   | VPrecondition _ => "contract-only function called in a state its contract does not allow"
   | VIllFormed => "ill-formed program"
